@@ -433,6 +433,29 @@ def removeGapSites (test : Nat → Nat → Bool) (ends : Bool) (b : Bag) : Optio
   let r := removeCharacterSites test (pairs b) b.length b.alphabet [GAP] ends false false false false
   some ({ b with rows := withSeqs b.rows r.rows, length := r.length }, r)
 
+/-- the write-back shared by the site-cleaning methods: `f` is the C12 model function (given the plain rows, the cached
+length and the alphabet); the new sequences are written through the pointers, the cached length becomes the length the
+model reports.  `none` = index panic: the counting loop (`RemoveCharacterSites`) / `MaxCharStats`
+(`RemoveMajorityCharacterSites`) reads every row at every site below the cached length BEFORE anything is written, so a row
+shorter than that (possible only after an operation that reported an error) cannot be read. -/
+def cleanSitesBag (f : CRows → Int → Nat → CleanResult) (b : Bag) : Option (Bag × CleanResult) :=
+  if b.rows.any (fun r => r.seq.length < b.length.toNat) then none else
+  let r := f (pairs b) b.length b.alphabet
+  some ({ b with rows := withSeqs b.rows r.rows, length := r.length }, r)
+
+/-- `align.RemoveCharacterSites(c, cutoff, ends, ignoreCase, ignoreGaps, ignoreNs, reverse)`, general form: the C12
+model on the rows as they are (character set, case folding, the two ignore options with the wildcard of the alignment's
+own alphabet, reversed selection, `ends` mode), written back in place -/
+def removeCharSitesBag (test : Nat → Nat → Bool) (cs : List Byte) (ends ignoreCase ignoreGaps ignoreNs reverse : Bool)
+    (b : Bag) : Option (Bag × CleanResult) :=
+  cleanSitesBag (fun rows L a => removeCharacterSites test rows L a cs ends ignoreCase ignoreGaps ignoreNs reverse) b
+
+/-- `align.RemoveMajorityCharacterSites(cutoff, ends, ignoreGaps, ignoreNs)`: the C12 model (counts of `MaxCharStats`)
+written back in place -/
+def removeMajoritySitesBag (test : Nat → Nat → Bool) (ends ignoreGaps ignoreNs : Bool) (b : Bag) :
+    Option (Bag × CleanResult) :=
+  cleanSitesBag (fun rows L a => removeMajoritySites test rows L a ends ignoreGaps ignoreNs) b
+
 /-- `align.Compress()` through the C13 model: the distinct column patterns (in the order of the radix-tree
 walk) overwrite the first residues of every row, the rows are cut there, the cached length becomes the number
 of patterns — also for an alignment of length −1, whose cached length becomes 0; returns the weights.
@@ -481,6 +504,20 @@ it: the index points to the first of them).  Returns the state and the entries p
 def renameRegexp (names : List String) (b : Bag) : Bag × List (String × String) :=
   let rows := renameList b.rows names
   ({ b with rows := rows, index := rebuildIndex rows }, renameMap (b.rows.map (·.name)) names [])
+
+/-! ### `Replace` with a regular expression -/
+
+/-- row `i` takes the `i`-th of the new sequences (the values of `r.ReplaceAllString(sequence, new)`, computed outside
+the model: Go's regexp is external); a row without a value keeps its sequence -/
+def regexSeqs (ps : List (String × Seq)) (seqs : List Seq) : List (String × Seq) :=
+  ps.zipIdx.map fun (p, i) => (p.1, seqs.getD i p.2)
+
+/-- `Replace(old, new, true)` once the regular expression compiled, with the new sequences supplied: every row's
+sequence is overwritten through its pointer (ids, names, index and cached length untouched); for an alignment an error
+is then returned if some row no longer has the cached length (the rows stay as written) -/
+def replaceRegexBag (seqs : List Seq) (b : Bag) : Bag × Bool :=
+  let b' := { b with rows := withSeqs b.rows (regexSeqs (pairs b) seqs) }
+  (b', b.isAlign && b'.rows.any fun r => (r.seq.length : Int) != b'.length)
 
 /-! ### `SetAlphabet` -/
 
